@@ -203,6 +203,10 @@ def run(chk, w):
     # ---- OPT
     c09.opt_rule(chk, w, S, "C07-OPT")
 
+    # ---- MEMO
+    from .. import memo
+    memo.run(chk, P, "C07-MEMO", lambda f_: f_.relfile.startswith("src/state/") and "getter" in f_.relfile and f_.ret.endswith("*"), 12)
+
     # ---- WALKALL
     rules.walkall_rule(chk, P, "C07-WALKALL", lambda f_: f_.relfile.startswith("src/state/bidib_state_setter"), 8)
 
